@@ -728,8 +728,14 @@ func (g *Gen) build(t *rapid.T, kind string) *spec {
 			hh := g.Horizon + 1_000_000 + uint64(U(t, "haltFar", 11))
 			if U(t, "haltNear", 4) == 0 {
 				hh = h + uint64(U(t, "haltH", 21)) - 2
-				if c != nil {
-					s.sender = g.notOwner(t, c)
+				// the signer must not own the candidate named by pk (whatever pk is)
+				for i := range g.V.Cands {
+					if g.V.Cands[i].PubKey == pk {
+						s.sender = g.notOwner(t, &g.V.Cands[i])
+					}
+				}
+				if live := g.cs().Candidates().GetCandidate(pk); live != nil && s.sender != nil && live.OwnerAddress == s.sender.Addr {
+					s.sender = nil
 				}
 				if s.sender == nil {
 					hh = g.Horizon + 1_000_000
